@@ -259,21 +259,23 @@ static int cb_valid(cfg_t *cfg, cfg_opt_t *opt)
 	return fail;
 }
 
+static int setter_kind;	/* which cfg_setn* is running: the validator gets a pointer of that kind */
+
 static int cb_valid2(cfg_t *cfg, cfg_opt_t *opt, void *value)
 {
 	int fail = failing();
 
 	fputs("T valid2 ", obs);
 	puthex(opt->name);
-	switch (opt->type) {
-	case CFGT_INT:
+	switch (setter_kind) {
+	case 'I':
 		fprintf(obs, " i%ld\n", *(long *)value);
 		if (*(long *)value < 0)
 			fail = 1;
 		else if (!fail && *(long *)value > 1000)
 			*(long *)value = 1000;
 		break;
-	case CFGT_FLOAT:
+	case 'F':
 		fprintf(obs, " f%016lx\n", (unsigned long)dbits(*(double *)value));
 		break;
 	default:
@@ -829,6 +831,7 @@ static void run_line(char *line)
 		op_begin();
 		if (w[0][0] == 'O')
 			o = cfg_getopt(c, p);
+		setter_kind = w[0][1];
 		switch (w[0][1]) {
 		case 'I':
 			rc = w[0][0] == 'S' ? cfg_setnint(c, p, strtol(w[4], NULL, 10), idx) : cfg_opt_setnint(o, strtol(w[4], NULL, 10), idx);
